@@ -31,6 +31,19 @@ CHECKS = {
         ref="DESIGN.md 5/C15"),
 }
 
+CHECKS["C01"] = dict(
+    technique=TECH + " - schema.iter_errors() on parser-built content models with words chosen by symbolic indices (finite choice), "
+                     "vs. a position-automaton language oracle; determinism filter by the independent UPA oracle",
+    category="model_checking",
+    text="For each model of a fixed catalogue (508 deterministic sequence/choice models with element, wildcard and substitution leaves and "
+         "occurrence bounds from a 9-value domain, plus all-groups, XSD 1.1 element/wildcard competition and open-content models) the engine "
+         "explores every child sequence up to length 4 over a name pool and compares the real validator's verdict (and the error's parent "
+         "element) with language membership in the oracle automaton; 'Confirmed over all paths' certifies the word space was exhausted.",
+    note="Finite-choice word dimension (the engine certifies exhaustiveness). Known finding (greedy ModelVisitor) listed per (model, word) in "
+         "known/C01.json and subtracted from the search. Oracle: Glushkov automaton of the occurrence-unrolled model, XSD 1.1 element-over-"
+         "wildcard precedence, open content per Structures 1.1 3.4.4.2.",
+    ref="DESIGN.md 5/C01")
+
 NOT_APPLICABLE = {
     "C18": "quantifies over thread interleavings; no engine of this family here executes Python threads symbolically (CrossHair is "
            "single-threaded); see DESIGN.md section 6",
